@@ -55,7 +55,7 @@ def shards(tier):
 
 def floors(tier):
     f = {"cases": 15000, "cases_with_errors": 4000, "arrangements": 3000, "chains": 300, "inner_store_refs": 100,
-         "siblings_next_to_ref": 300, "hostile_name_resolutions": 2000, "recursive_cases": 1000, "recursive_with_asserting_siblings": 300, "near_identical_url_cases": 2000, "retrieval_uri_cases": 400, "id_collision_cases": 300,
+         "siblings_next_to_ref": 300, "hostile_name_resolutions": 2000, "recursive_cases": 1000, "recursive_with_asserting_siblings": 300, "near_identical_url_cases": 2000, "retrieval_uri_cases": 400, "id_collision_cases": 300, "reused_after_failed_retrieval": 500,
          "recursion_depth3plus": 200, "model_crosschecks": 2000, "max_scope_depth": 3, "transform_selfcheck_ok": 3000, "foreign_id_keywords_on_path": 500, "relative_id_in_store_doc": 200, "reused_after_validate": 5000,
          "uri_calibration": 60}
     for m in ("noid", "rootid", "rootid#", "nested"):
@@ -133,6 +133,39 @@ def compare(ctx, d, S, S0, store, handler_docs, inst, info, mech=None, model=Tru
         except Exception:
             ctx.count("reused_validator_exception_delegated")
         del kept
+    # ... and on a validator whose first attempt failed because a document could not be fetched THEN: once the handler
+    # can serve it, the references behave as the schemas they designate (a failure is not an answer to remember)
+    if handler_docs and info.get("refs", 1):
+        state = {"fail": True}
+
+        def flaky(url):
+            if state["fail"]:
+                raise OSError("vf: temporarily unavailable")
+            return handler_docs[url.split("#")[0]]
+        cls = impl.CLS[d]
+        if info.get("retrieved_from") is not None:
+            Rv = RefResolver(info["retrieved_from"], S, store=dict(store), handlers={"vf": flaky})
+        else:
+            Rv = RefResolver.from_schema(S, id_of=cls.ID_OF, store=dict(store), handlers={"vf": flaky})
+        V = cls(S, resolver=Rv)
+        try:
+            first = "ok"
+            try:
+                list(V.iter_errors(inst))
+            except X.RefResolutionError:
+                first = "RefResolutionError"
+            state["fail"] = False
+            again = locs(V.iter_errors(inst))
+            ctx.count("reused_after_failed_retrieval" if first != "ok" else "flaky_handler_not_reached")
+            if again != l0:
+                ctx.violation("locations-differ-after-a-failed-retrieval", case,
+                              "first attempt: %s (handler unavailable); second attempt on the same validator gives %r, inlined %r" % (first, again[:3], l0[:3]), mech=mech)
+                return
+        except X.RefResolutionError as e:
+            ctx.violation("resolvable-reference-failed", case, "after an earlier failed retrieval, with the handler working again: %s" % str(e)[:100], mech=mech)
+            return
+        except Exception:
+            ctx.count("reused_validator_exception_delegated")
     if model:
         docs = dict(store)
         docs.update(handler_docs)
